@@ -17,7 +17,7 @@ import (
 	"github.com/formancehq/ledger/verifharness/stats"
 )
 
-const ruleC07F = "fault enumeration: for every generated write (create by postings, revert, 4 metadata operations, insert schema; as a single request or as an atomic bulk of 1-3 elements; on an 'initializing' or an in-use ledger, fresh or re-used controller chain) the operation is first attempted with a database failure injected at SQL statement k = 1, 2, 3, ... (once before the statement runs, once after its effect has been applied inside the transaction) and then at COMMIT j = 1, 2, ..., until a position past the end lets it complete; a third dimension injects a deadlock error (retryable) at statement k of writes and dry runs, so that the retry path replays them; after every attempt that reports an error all tables (bucket and _system, committed rows) must be identical to the snapshot taken before it and the Listener must have received nothing; an attempt that reports success although the fault fired must have made every write it acknowledges durable (one log each); non-trivial = operation with >= 4 enumerated positions of which >= 1 after an effect, that finally commits; distinct = by operation + pre-state history"
+const ruleC07F = "fault enumeration: for every generated write (create by postings, revert, 4 metadata operations, insert schema; as a single request or as an atomic bulk of 1-3 elements; on an 'initializing' or an in-use ledger, fresh or re-used controller chain) the operation is first attempted with a database failure injected at SQL statement k = 1, 2, 3, ... (once before the statement runs, once after its effect has been applied inside the transaction) and then at COMMIT j = 1, 2, ..., until a position past the end lets it complete; a third dimension injects a retryable error - a deadlock (SQLSTATE 40P01), or a refusal for lack of connection slots (53300), which the service answers by replaying the whole request up to 10 times - at statement k of writes and dry runs, so that the retry paths replay them: a replayed write must be applied exactly once; after every attempt that reports an error all tables (bucket and _system, committed rows) must be identical to the snapshot taken before it and the Listener must have received nothing; an attempt that reports success although the fault fired must have made every write it acknowledges durable (one log each); non-trivial = operation with >= 4 enumerated positions of which >= 1 after an effect, that finally commits; distinct = by operation + pre-state history"
 
 // runOps issues the operation (single write or atomic bulk) and returns the error of every part.
 func (r *evRun) runOps(l *c31Ledger, mode string, ops []evOp) []error {
@@ -129,15 +129,17 @@ func (r *evRun) enumerate(t interface{ Fatalf(string, ...any) }, l *c31Ledger, m
 				break
 			}
 		}
-	case "deadlock":
-		// a retryable failure at statement k: the operation is replayed by the retry path and must then behave
-		// exactly like a first attempt - in particular a dry run must still leave nothing behind
+	case "deadlock", "refused":
+		// a retryable failure at statement k - the statement is the victim of a deadlock, or the database has no
+		// connection slot left for it: the operation is replayed by a retry path and must then behave exactly like a
+		// first attempt - in particular a dry run must still leave nothing behind, and a write is applied once
 		dry := mode == "single" && ops[0].DryRun
 		for k := 1; k <= 60; k++ {
 			before := sim.Dump()
 			evBefore := len(r.lis.events)
+			logsBefore := len(r.lis.committedLogs(l.name))
 			var errs []error
-			tr := withFault(sim, faultPlan{Kind: "deadlock", At: k}, func() { errs = r.runOps(l, mode, ops) })
+			tr := withFault(sim, faultPlan{Kind: dimension, At: k}, func() { errs = r.runOps(l, mode, ops) })
 			for _, e := range errs {
 				if e != nil {
 					r.w.checkErr(e)
@@ -159,14 +161,17 @@ func (r *evRun) enumerate(t interface{ Fatalf(string, ...any) }, l *c31Ledger, m
 					if err == nil {
 						what = "was a dry run replayed after a deadlock"
 					}
-					t.Fatalf("VIOLATION[C07]: %s %s (deadlock injected at statement %d, outcome %v) but left a trace\n%s\nhistory:\n  %s", desc, what, k, err, dumpDiff(before, after), strings.Join(r.hist, "\n  "))
+					t.Fatalf("VIOLATION[C07]: %s %s (%s injected at statement %d, outcome %v) but left a trace\n%s\nhistory:\n  %s", desc, what, dimension, k, err, dumpDiff(before, after), strings.Join(r.hist, "\n  "))
 				}
 				if n := len(r.lis.events) - evBefore; n != 0 {
-					t.Fatalf("VIOLATION[C07]: %s (deadlock injected at statement %d, outcome %v) published %d event(s) without a durable write\nhistory:\n  %s", desc, k, err, n, strings.Join(r.hist, "\n  "))
+					t.Fatalf("VIOLATION[C07]: %s (%s injected at statement %d, outcome %v) published %d event(s) without a durable write\nhistory:\n  %s", desc, dimension, k, err, n, strings.Join(r.hist, "\n  "))
 				}
 				continue
 			}
-			// a real write went through on the retry: the history has advanced, stop enumerating this operation
+			// a real write went through on the retry: once, and the history has advanced - stop enumerating this operation
+			if grew := len(r.lis.committedLogs(l.name)) - logsBefore; grew != len(ops) {
+				t.Fatalf("VIOLATION[C07]: %s was replayed after a retryable failure (%s at statement %d) and answered with success for its %d write(s), but the journal grew by %d log(s)\nhistory:\n  %s", desc, dimension, k, len(ops), grew, strings.Join(r.hist, "\n  "))
+			}
 			fs.completed = true
 			break
 		}
@@ -236,8 +241,8 @@ func runFaultEnumeration(t *testing.T, id string, quick, thorough int) {
 			for j := range ops {
 				ops[j].IK = "" // every attempt must be a fresh execution
 			}
-			dim := rapid.SampledFrom([]string{"statement", "statement", "commit", "deadlock"}).Draw(rt, "dimension")
-			if ops[0].DryRun {
+			dim := rapid.SampledFrom([]string{"statement", "statement", "commit", "deadlock", "refused"}).Draw(rt, "dimension")
+			if ops[0].DryRun && dim != "refused" {
 				dim = "deadlock" // the other dimensions need an operation that can eventually commit
 			}
 			fs := r.enumerate(rt, l, mode, ops, dim)
